@@ -112,7 +112,7 @@ class CUnit:
         # locals renamed by an edit are renamed back to the vocabulary the rules use where structure alone decides it (see
         # localnames.py): the text is rewritten (identifier for identifier, so lines keep their numbers) and parsed again
         stage = getattr(self, '_renorm_stage', 0)
-        if stage < 2:
+        if stage < 5:
             from .localnames import renormalize_c, unflip_c
             new_text = (renormalize_c if stage == 0 else unflip_c)(self.text, tu, rel)
             self._renorm_stage = stage + 1
